@@ -245,9 +245,10 @@ class Scheduler:
                 pass
             except BaseException as e:  # noqa
                 st.exc = e
-                self.thread_errors.append(
-                    (st.name, e, traceback.format_exc())
-                )
+                if not self.aborting:
+                    self.thread_errors.append(
+                        (st.name, e, traceback.format_exc())
+                    )
             finally:
                 st.finished = True
                 self._thread_exit(st)
@@ -519,6 +520,8 @@ class Lock:
 
     def release(self):
         if self._owner is None:
+            if _SCHED is None or _SCHED.aborting:
+                return  # unwinding a torn-down run
             raise RuntimeError('release unlocked lock')
         self._owner = None
 
@@ -560,6 +563,8 @@ class RLock:
 
     def release(self):
         if self._owner is not _SCHED.me():
+            if _SCHED.aborting:
+                return
             raise RuntimeError('cannot release un-acquired lock')
         self._count -= 1
         if self._count == 0:
